@@ -1,9 +1,9 @@
 #!/bin/bash
 # runs every seeded change against the check of its property; prints one line per change
-for d in /verif/seeded/_unverified/C*/[AB] /verif/seeded/C*/*/; do
+for d in /verif/seeded/C[0-9][0-9]-*/; do
   [ -f "$d/patch.diff" ] || continue
   prop=$(echo "$d" | grep -o 'C[0-9][0-9]' | head -1)
-  name=$(echo "$d" | sed 's#/verif/seeded/##')
+  name=$(basename "$d")
   if ! grep -q "\"$prop\"" /verif/MANIFEST.json 2>/dev/null || ! python3 -c "import json,sys; m=json.load(open('/verif/MANIFEST.json')); sys.exit(0 if any(c['property_id']=='$prop' for c in m['checks']) else 1)"; then echo "$name: property not claimed yet"; continue; fi
   out=$(/verif/tools/try_mutation.sh "$d/patch.diff" $prop 2>&1 | tr '\n' ' ' | cut -c1-220)
   echo "$name: $out"
